@@ -337,6 +337,13 @@ def check_cursor(ctx):
     okdl = P_len is not None
     if P_len is None:
         P_len = Poly()
+    if not okdl and any(y.get('kind') in ('ForStmt', 'WhileStmt', 'DoStmt', 'CXXForRangeStmt') or
+                        (y.get('kind') == 'BinaryOperator' and y.get('opcode') in ('.*', '->*')) for y in walk(fd)):
+        # the length summed in a loop over a table of counts / through pointers to members: the sum is not followed, and
+        # without it the byte accounting of the decoder has nothing to be compared with
+        ctx.unknown('C12-cursor', 'Header::DataLength is a polynomial in the header counts', fd,
+                    'DataLength computes the length in a loop or through pointers to members', construct='cursor:datalength')
+        return
     ctx.check(okdl, 'C12-cursor', 'Header::DataLength is a polynomial in the header counts: %s' % P_len, fd,
               'DataLength is not a sum of count*width terms', construct='cursor:datalength')
     # in Load: locate len, tbuf, bp
@@ -766,9 +773,11 @@ def check_da_members(ctx):
     # (a count filled in through its address, say from a table of destinations, is not followed: no verdict for it)
     addr_taken = set(peel(kids(y)[0]).get('name') for y in walk(f) if y.get('kind') == 'UnaryOperator' and y.get('opcode') == '&' and
                      peel(kids(y)[0]) is not None and peel(kids(y)[0]).get('kind') == 'MemberExpr')
+    # (... nor is one stored through a pointer to member picked from a table)
+    via_memptr = any(y.get('kind') == 'BinaryOperator' and y.get('opcode') in ('.*', '->*') for y in walk(f))
     for c in counts:
         ok = bool(acc) and all(isinstance(s.mem.get(('HDR', c)), Int) and s.mem[('HDR', c)].lo >= 0 for (v, s) in acc)
-        ctx.check3(None if (not ok and c in addr_taken) else ok, 'C12-da', 'Header::Build true => %s assigned and non-negative' % c, f,
+        ctx.check3(None if (not ok and (c in addr_taken or via_memptr)) else ok, 'C12-da', 'Header::Build true => %s assigned and non-negative' % c, f,
                   'Header::Build can return true with %s unassigned or negative: DataLength and every loop bound derived '
                   'from it are indeterminate' % c, construct='da:header:%s' % c,
                   detail=str([str(s.mem.get(('HDR', c))) for (v, s) in acc][:2]),
@@ -1042,6 +1051,65 @@ def check_footer(ctx, rule):
 # C12-sentinel: a transition in each half of the time line on every accepting path
 
 
+def _insertion_of(u, f, d):
+    """(call, 'begin' | 'end') when the reference local <d> names an entry freshly inserted at the front / the back of a
+    vector: `T& r(*v.emplace(v.end()))`, `*v.insert(v.begin(), T())`, or `v.emplace_back(); T& r(v.back());` (the insertion
+    is the statement right before the declaration); (None, None) otherwise."""
+    if d is None or d.get('kind') != 'VarDecl' or not kids(d):
+        return None, None
+    K = Keys(u)
+    init = kids(d)[-1]
+    calls = [x for x in walk(init) if x.get('kind') == 'CXXMemberCallExpr' and callee(x) and callee(x)[1] in ('emplace', 'insert')]
+    if len(calls) == 1 and K.key(init).startswith('*'):
+        c = calls[0]
+        a = call_args(c)
+        vec = K.key(callee(c)[2]) if callee(c)[2] is not None else None
+        if a and vec:
+            ka = K.key(a[0])
+            if ka == vec + '.begin()' or ka == vec + '.cbegin()':
+                return c, 'begin'
+            if ka == vec + '.end()' or ka == vec + '.cend()':
+                return c, 'end'
+        return None, None
+    ik = K.key(init)
+    m = re.match(r'^(.*)\[\(\1\.size\(\) - n:1\)\]$', ik)
+    which = None
+    if m:
+        vec, which = m.group(1), 'end'
+    else:
+        m = re.match(r'^(.*)\[n:0\]$', ik)
+        if m:
+            vec, which = m.group(1), 'begin'
+        elif ik.endswith('.back()'):
+            vec, which = ik[:-7], 'end'
+        elif ik.endswith('.front()'):
+            vec, which = ik[:-8], 'begin'
+    if which is None:
+        return None, None
+    # the statement right before the declaration
+    for cs in walk(f):
+        if cs.get('kind') != 'CompoundStmt':
+            continue
+        ks = kids(cs)
+        for i, st in enumerate(ks):
+            if st.get('kind') == 'DeclStmt' and any(y is d or y.get('id') == d.get('id') for y in kids(st)) and i > 0:
+                prev = peel(ks[i - 1])
+                if prev.get('kind') == 'ExprWithCleanups' and kids(prev):
+                    prev = peel(kids(prev)[0])
+                if prev.get('kind') != 'CXXMemberCallExpr' or not callee(prev) or callee(prev)[2] is None or \
+                        K.key(callee(prev)[2]) != vec:
+                    return None, None
+                nm = callee(prev)[1]
+                a = call_args(prev)
+                if which == 'end' and (nm in ('emplace_back', 'push_back') or
+                                       (nm in ('emplace', 'insert') and a and K.key(a[0]) in (vec + '.end()', vec + '.cend()'))):
+                    return prev, 'end'
+                if which == 'begin' and nm in ('emplace', 'insert') and a and K.key(a[0]) in (vec + '.begin()', vec + '.cbegin()'):
+                    return prev, 'begin'
+                return None, None
+    return None, None
+
+
 def check_sentinels(ctx):
     G = ctx.G
     k = G.one('cctz::TimeZoneInfo::Load', 'ZoneInfoSource')
@@ -1059,11 +1127,11 @@ def check_sentinels(ctx):
             tgt = peel(kids(x)[0])
             base = peel(kids(tgt)[0]) if kids(tgt) else None
             d = u.by_id.get((base.get('referencedDecl') or {}).get('id')) if base is not None and base.get('kind') == 'DeclRefExpr' else None
-            ik = Keys(u).key(kids(d)[-1]) if d is not None and kids(d) else ''
-            if v is not None and 'emplace' in ik:
-                if v < 0 and '.begin()' in ik:
+            call_, where_ = _insertion_of(u, f, d)
+            if v is not None and call_ is not None:
+                if v < 0 and where_ == 'begin':
                     ins['first'].append(x)
-                if v >= 0 and '.end()' in ik:
+                if v >= 0 and where_ == 'end':
                     ins['last'].append(x)
     for half, insert_nodes, op_ok in (('first', ins['first'], 'neg'), ('second', ins['last'], 'nonneg')):
         cut_edges = []
@@ -1142,7 +1210,8 @@ def check_sentinel_types(ctx, rule):
             did = (base.get('referencedDecl') or {}).get('id')
             d = u.by_id.get(did)
             # the emplace call that creates the entry
-            emp = [x for x in walk(kids(d)[-1]) if x.get('kind') == 'CXXMemberCallExpr' and callee(x) and callee(x)[1] == 'emplace']
+            call_, _w = _insertion_of(u, f, d)
+            emp = [call_] if call_ is not None else []
             if len(emp) != 1:
                 ctx.unknown(rule, 'type of the %s sentinel' % half, a, 'the insertion that creates the sentinel entry is not a single emplace call',
                             construct='sentinel-type:%s' % half)
